@@ -8,7 +8,6 @@ import (
 	"go/parser"
 	"go/token"
 	"reflect"
-	"regexp"
 	"sort"
 	"strings"
 
@@ -242,18 +241,18 @@ func c12Check(c *fw.Ctx, label, cfg string, r *decorator.Restorer, df *dst.File,
 		}
 	}
 	var rcs, fcs []*ast.Comment
-	// go/printer reformats doc comments and in doing so adds or drops empty "//" lines; those are
-	// not positions the restorer is answerable for
+	// go/printer reformats doc comments and in doing so adds or drops empty "//" lines, and it
+	// synthesises / deletes build-constraint lines; those are not positions the restorer answers for
 	for _, cg := range rf.Comments {
 		for _, cm := range cg.List {
-			if stripWS(cm.Text) != "//" {
+			if stripWS(cm.Text) != "//" && !buildLine.MatchString(cm.Text) {
 				rcs = append(rcs, cm)
 			}
 		}
 	}
 	for _, cg := range ff.Comments {
 		for _, cm := range cg.List {
-			if stripWS(cm.Text) != "//" {
+			if stripWS(cm.Text) != "//" && !buildLine.MatchString(cm.Text) {
 				fcs = append(fcs, cm)
 			}
 		}
@@ -611,4 +610,4 @@ func sameImportOrder(a, b *ast.File) bool {
 }
 
 // a generic alias declaration: type A[P any] = ...
-var genericAlias = regexp.MustCompile(`(?m)^\s*(type\s+)?[A-Za-z_]\w*\[[^\]\n]*\]\s*=[^=]`)
+var genericAlias = genericAliasDecl
